@@ -456,6 +456,144 @@ static std::string cmd_rc(const std::vector<std::string>& toks) {
     }
     return out.str();
 }
+// ---------------------------------------------------------------- GivMMRefCount on pointer variables q[0..nq): the model's rstep
+// op tokens: n<i>,<s> (np = allocate(s); desallocate(q[i]); q[i] = np)   s<i>,<j> (assign(&q[i], q[j]))   z<i> (assign(&q[i], 0))
+//            f<i> (desallocate(q[i]); q[i] = 0)   r<i>,<new> (q[i] = resize(q[i], usz[i], new))   p<i> (incrc, getrc, decrc)
+struct RBlk { std::vector<int> bytes; };      // -1 = unspecified byte
+struct RWorld {
+    static const int NQ = 3;
+    void* q[NQ]; size_t usz[NQ]; std::shared_ptr<RBlk> o[NQ]; int pat; std::string probe;
+    RWorld() : pat(0) { for (int i = 0; i < NQ; ++i) { q[i] = 0; usz[i] = 0; } }
+    void fill(int i, size_t from, size_t to) {   // q[i] is the only owner here
+        ++pat; unsigned char* b = (unsigned char*) q[i];
+        for (size_t k = from; k < to; ++k) { b[k] = (unsigned char) (pat * 7 + k); o[i]->bytes[k] = b[k]; }
+    }
+    void apply(char kind, int i, long a) {
+        probe.clear();
+        switch (kind) {
+        case 'n': { void* np = GivMMRefCount::allocate((size_t) a); GivMMRefCount::desallocate(q[i]); q[i] = np; usz[i] = (size_t) a;
+                    o[i] = std::make_shared<RBlk>(); o[i]->bytes.assign((size_t) a, -1); fill(i, 0, (size_t) a); break; }
+        case 's': { void* r = GivMMRefCount::assign(&q[i], q[a]); if (r != q[i] || q[i] != q[a]) probe = "assign-result!"; usz[i] = usz[a]; o[i] = o[a]; break; }
+        case 'z': { void* r = GivMMRefCount::assign(&q[i], 0); if (r != 0 || q[i] != 0) probe = "assign-result!"; usz[i] = 0; o[i].reset(); break; }
+        case 'f': GivMMRefCount::desallocate(q[i]); q[i] = 0; usz[i] = 0; o[i].reset(); break;
+        case 'r': { size_t old = usz[i], nw = (size_t) a;
+                    q[i] = GivMMRefCount::resize(q[i], old, nw); usz[i] = nw;
+                    std::shared_ptr<RBlk> nb = std::make_shared<RBlk>(); nb->bytes.assign(nw, -1);
+                    if (o[i]) for (size_t k = 0; k < std::min(old, nw); ++k) nb->bytes[k] = o[i]->bytes[k];
+                    if (o[i] && o[i].use_count() == 1 && nw <= old) { o[i]->bytes.resize(std::max(old, nw)); }   // sole owner, no growth: same block
+                    else o[i] = nb;
+                    if (nw > old) fill(i, old, nw);
+                    break; }
+        case 'p': { std::ostringstream s; s << GivMMRefCount::incrc(q[i]) << "," << GivMMRefCount::getrc(q[i]) << "," << GivMMRefCount::decrc(q[i]); probe = s.str(); break; }
+        }
+        for (int k = 0; k < NQ; ++k) if (q[k]) addr_id((char*) q[k] - 8);
+    }
+    void observe(std::vector<long>& out) {
+        for (int i = 0; i < NQ; ++i) {
+            if (!q[i]) { out.push_back(-1); continue; }
+            out.push_back(addr_id((char*) q[i] - 8)); out.push_back(header_index((char*) q[i] - 8)); out.push_back(GivMMRefCount::getrc(q[i]));
+        }
+    }
+    std::string show() {
+        std::ostringstream s;
+        for (int i = 0; i < NQ; ++i) {
+            if (!q[i]) s << "q" << i << ":- ";
+            else s << "q" << i << ":" << addr_id((char*) q[i] - 8) << "/" << header_index((char*) q[i] - 8) << "/" << GivMMRefCount::getrc(q[i]) << " ";
+        }
+        if (!probe.empty()) s << "probe=" << probe << " ";
+        return s.str();
+    }
+    // implementation vs reference-count oracle
+    std::string oracle_diff() {
+        std::ostringstream s;
+        if (probe == "assign-result!") s << "assign() result / *dest inconsistent; ";
+        for (int i = 0; i < NQ; ++i) {
+            if ((q[i] != 0) != (o[i] != 0)) { s << "q" << i << (q[i] ? " non-null" : " null") << " unexpectedly; "; continue; }
+            if (!q[i]) { if (GivMMRefCount::getrc(q[i]) != 0) s << "getrc(0) != 0; "; continue; }
+            long c = GivMMRefCount::getrc(q[i]);
+            if (c != (long) o[i].use_count()) s << "q" << i << ".count=" << c << " expected " << o[i].use_count() << "; ";
+            if (on_free_list((char*) q[i] - 8)) s << "q" << i << " refers to a bloc that is on a free list; ";
+            const unsigned char* b = (const unsigned char*) q[i];
+            for (size_t k = 0; k < usz[i] && k < o[i]->bytes.size(); ++k)
+                if (o[i]->bytes[k] >= 0 && b[k] != o[i]->bytes[k]) { s << "q" << i << "[" << k << "]=" << (int) b[k] << " expected " << o[i]->bytes[k] << "; "; break; }
+            for (int j = 0; j < i; ++j) if (q[j]) {
+                if ((q[i] == q[j]) != (o[i] == o[j])) s << "q" << i << (q[i] == q[j] ? " aliases q" : " does not alias q") << j << "; ";
+            }
+        }
+        if (probe.size() && probe != "assign-result!") {    // incrc,getrc,decrc of the probed variable
+            long a = 0, b = 0, c = 0; sscanf(probe.c_str(), "%ld,%ld,%ld", &a, &b, &c);
+            // recover which variable: the values must be count+1,count+1,count of some live variable, or 0,0,0
+            bool ok = (a == 0 && b == 0 && c == 0);
+            for (int i = 0; i < NQ; ++i) if (o[i] && a == (long) o[i].use_count() + 1 && b == a && c == a - 1) ok = true;
+            if (!ok) s << "incrc/getrc/decrc = " << probe << "; ";
+        }
+        return s.str();
+    }
+    void cleanup() { for (int i = 0; i < NQ; ++i) { GivMMRefCount::desallocate(q[i]); q[i] = 0; usz[i] = 0; o[i].reset(); } }
+};
+struct ROp { char kind; int i; long a; };
+static ROp parse_rop(const std::string& t) {
+    ROp o; o.kind = t[0]; long v[2] = {0, 0}; int n = 0; std::stringstream ss(t.substr(1)); std::string part;
+    while (std::getline(ss, part, ',') && n < 2) v[n++] = atol(part.c_str());
+    o.i = (int) v[0]; o.a = v[1]; return o;
+}
+static std::string rop_str(const ROp& o) {
+    std::ostringstream s; s << o.kind << o.i; if (o.kind == 'n' || o.kind == 's' || o.kind == 'r') s << "," << o.a; return s.str();
+}
+// rcq op...: one sequence, observation + oracle after every step, then release everything and check the pool
+static std::string cmd_rcq(const std::vector<std::string>& toks) {
+    pool_baseline(); RWorld w; std::ostringstream out;
+    for (size_t k = 0; k < toks.size(); ++k) {
+        ROp o = parse_rop(toks[k]); w.apply(o.kind, o.i, o.a);
+        out << "| " << w.show();
+        std::string d = w.oracle_diff();
+        if (!d.empty()) { out << "ORACLE-MISMATCH step " << k << " (" << toks[k] << "): " << d; return out.str(); }
+    }
+    w.cleanup();
+    long po = pool_outstanding(); if (po != 0) out << "POOL-LEAK outstanding=" << po;
+    return out.str();
+}
+static std::vector<ROp> ralphabet(const std::vector<int>& sizes) {
+    std::vector<ROp> l;
+    for (int i = 0; i < RWorld::NQ; ++i) for (size_t k = 0; k < sizes.size(); ++k) l.push_back(ROp{'n', i, sizes[k]});
+    for (int i = 0; i < RWorld::NQ; ++i) for (int j = 0; j < RWorld::NQ; ++j) l.push_back(ROp{'s', i, j});
+    for (int i = 0; i < RWorld::NQ; ++i) l.push_back(ROp{'z', i, 0});
+    for (int i = 0; i < RWorld::NQ; ++i) l.push_back(ROp{'f', i, 0});
+    for (int i = 0; i < RWorld::NQ; ++i) for (size_t k = 0; k < sizes.size(); ++k) l.push_back(ROp{'r', i, sizes[k]});
+    for (int i = 0; i < RWorld::NQ; ++i) l.push_back(ROp{'p', i, 0});
+    return l;
+}
+struct REnum {
+    std::vector<ROp> alpha; int lmax; long nodes; std::ostringstream extra; int nextra;
+    void visit(std::vector<ROp>& seq) {
+        ++nodes;
+        RWorld w; std::string d;
+        for (size_t k = 0; k < seq.size() && d.empty(); ++k) { w.apply(seq[k].kind, seq[k].i, seq[k].a); d = w.oracle_diff(); }
+        std::vector<long> obs; w.observe(obs);
+        for (size_t i = 0; i < obs.size(); ++i) mix(obs[i]);
+        for (size_t i = 0; i < w.probe.size(); ++i) mix(w.probe[i]);
+        w.cleanup();
+        long po = pool_outstanding();
+        if ((!d.empty() || po != 0) && nextra < 20) {
+            ++nextra; extra << "\n" << (d.empty() ? "POOL-LEAK " : "ORACLE-MISMATCH ");
+            for (size_t k = 0; k < seq.size(); ++k) extra << rop_str(seq[k]) << " ";
+            if (d.empty()) extra << ": outstanding=" << po; else extra << ": " << d;
+        }
+        if (!d.empty() || po != 0) { pool_baseline(); return; }
+        if ((int) seq.size() < lmax) for (size_t i = 0; i < alpha.size(); ++i) { seq.push_back(alpha[i]); visit(seq); seq.pop_back(); }
+    }
+};
+// rcenum <sizes,csv> <L> prefix...  -> nodes h1 h2 [+ ORACLE-MISMATCH / POOL-LEAK lines]
+static std::string cmd_rcenum(const std::vector<std::string>& toks) {
+    std::vector<int> sizes; { std::stringstream ss(toks[0]); std::string x; while (std::getline(ss, x, ',')) sizes.push_back(atoi(x.c_str())); }
+    REnum e; e.alpha = ralphabet(sizes); e.lmax = atoi(toks[1].c_str()); e.nodes = 0; e.nextra = 0;
+    g_h1 = g_h2 = 0; pool_baseline();
+    std::vector<ROp> seq; for (size_t i = 2; i < toks.size(); ++i) seq.push_back(parse_rop(toks[i]));
+    e.visit(seq);
+    std::ostringstream out; out << e.nodes << " " << g_h1 << " " << g_h2 << e.extra.str();
+    return out.str();
+}
+
 // RefCounter (givref_count.h)
 static std::string cmd_refcounter() {
     std::ostringstream out;
@@ -531,6 +669,8 @@ int main() {
             std::vector<std::string> pre(t.begin() + 7, t.end());
             r = es == 4 ? cmd_enum<int>(fx, addr, nh, sizes, lmax, pre) : cmd_enum<Integer>(fx, addr, nh, sizes, lmax, pre);
         } else if (t[0] == "alloc" && t.size() >= 2) { r = cmd_alloc(t[1] == "1", std::vector<std::string>(t.begin() + 2, t.end())); }
+        else if (t[0] == "rcq") { r = cmd_rcq(std::vector<std::string>(t.begin() + 1, t.end())); }
+        else if (t[0] == "rcenum" && t.size() >= 3) { r = cmd_rcenum(std::vector<std::string>(t.begin() + 1, t.end())); }
         else if (t[0] == "rc") { r = cmd_rc(std::vector<std::string>(t.begin() + 1, t.end())); }
         else if (t[0] == "refcounter") { r = cmd_refcounter(); }
         else if (t[0] == "rcnull") {    // GivMMRefCount::resize(0, 0, 16) on a recycled block whose data[0] is not 1
